@@ -395,6 +395,8 @@ impl<F: MatchFunc> Aligner<F> {
     #[inline(never)]
     fn compute_alignment(&mut self, x: TextSlice<'_>, y: TextSlice<'_>) -> Alignment {
         if self.band.num_cells() > MAX_CELLS {
+            #[cfg(feature = "verif-hooks")]
+            crate::verif::hit("banded.cell_budget");
             // Too many cells in the band. Return an empty alignment
             return Alignment {
                 score: MIN_SCORE,
@@ -835,6 +837,10 @@ impl<F: MatchFunc> Aligner<F> {
             // println!("{} of {}, {} of {} - {}", i, m, j, n, last_layer);
         }
 
+        #[cfg(feature = "verif-hooks")]
+        if i != 0 || j != 0 {
+            crate::verif::hit("banded.tb_left_band");
+        }
         // Handle the case when the traceback ends outside the band other than at (0, 0)
         if i != 0 {
             // Insert all i characters
@@ -871,6 +877,19 @@ impl<F: MatchFunc> Aligner<F> {
             operations,
             mode: AlignmentMode::Custom,
         }
+    }
+
+    /// Verification hook (feature `verif-hooks`): shape of the band used by the last call:
+    /// (cells in the band, rows, columns, band contains (0,0), band contains (m,n)).
+    #[cfg(feature = "verif-hooks")]
+    pub fn verif_band(&self) -> (usize, usize, usize, bool, bool) {
+        let b = &self.band;
+        let origin = b.ranges.first().map_or(false, |r| r.start == 0 && r.end > 0);
+        let corner = b
+            .ranges
+            .last()
+            .map_or(false, |r| r.start < b.rows && r.end >= b.rows);
+        (b.num_cells(), b.rows, b.cols, origin, corner)
     }
 
     /// Calculate global alignment of x against y.
